@@ -629,6 +629,17 @@ func c11HistoryConfigsFor(thorough bool) []*c11Cfg {
 			UseACL: true, DenyReserve: []int{2}, DenyConnect: [][2]int{{0, 1}},
 		},
 		{
+			// p2 also reaches the relay through ANOTHER relay that imposes no limits: that connection is relayed (circuit
+			// address) but not Limited. "neither party reached the relay through another relay": it must not keep p2's
+			// reservation alive once the direct connection is gone, and no circuit may be opened to p2 over it
+			Name: "unlimited-other-relay",
+			RC:   Resources{Limit: c11Limited(), ReservationTTL: time.Hour, MaxReservations: 3, MaxCircuits: 1, BufferSize: 16, MaxReservationsPerPeer: 1, MaxReservationsPerIP: 2, MaxReservationsPerASN: 1},
+			Clients: []c11ClientSpec{
+				{Label: "p1", Addrs: []c11AddrSpec{a4("A", ipA, 4001)}},
+				{Label: "p2", Addrs: []c11AddrSpec{a4("B", ipB, 4002), {Name: "via-unlimited-R2", Addr: "/ip4/192.0.2.9/tcp/4001/p2p/%R2/p2p-circuit", Relayed: true, Unlimited: true}}},
+			},
+		},
+		{
 			Name: "caps-asn-ipv6",
 			RC:   Resources{Limit: c11Limited(), ReservationTTL: time.Hour, MaxReservations: 2, MaxCircuits: 1, BufferSize: 16, MaxReservationsPerPeer: 1, MaxReservationsPerIP: 8, MaxReservationsPerASN: 1},
 			Clients: []c11ClientSpec{
